@@ -462,6 +462,72 @@ def analyse(code, mod, do_imports):
             "gdeletes": sorted(gdeletes), "maybe_unbound": maybe_unbound}
 
 
+def dead_fast_loads(code):
+    """[(name, line)]: reads (LOAD_FAST_CHECK) and deletions (DELETE_FAST) of a fast local that is unbound on EVERY
+    path from the function's entry to the instruction -- a forward data-flow over the bytecode (jumps, FOR_ITER /
+    SEND, the exception table: a handler is entered with the state before any instruction of its range).  State
+    of a local: 0 unbound on every path, 1 bound on every path, 2 otherwise.  STORE_FAST binds, DELETE_FAST and
+    LOAD_FAST_AND_CLEAR unbind (`except E as x:` ends with `x = None; del x`).  Such an instruction raises
+    UnboundLocalError whenever it is executed; a conditionally bound local (state 2) is never reported."""
+    import dis
+    instrs = list(dis.get_instructions(code))
+    if not instrs:
+        return []
+    idx = {ins.offset: k for k, ins in enumerate(instrs)}
+    n_par = code.co_argcount + code.co_kwonlyargcount + bool(code.co_flags & 0x4) + bool(code.co_flags & 0x8)
+    fast = list(code.co_varnames)
+    entry = {v: (1 if k < n_par else 0) for k, v in enumerate(fast)}
+    handlers = {}
+    for e in dis.Bytecode(code).exception_entries:
+        for k, ins in enumerate(instrs):
+            if e.start <= ins.offset < e.end and e.target in idx:
+                handlers.setdefault(k, []).append(idx[e.target])
+    no_fall = {"RETURN_VALUE", "RETURN_CONST", "RAISE_VARARGS", "RERAISE", "JUMP_FORWARD", "JUMP_BACKWARD",
+               "JUMP_BACKWARD_NO_INTERRUPT", "JUMP", "JUMP_NO_INTERRUPT", "INTERPRETER_EXIT"}
+    jumps = set(dis.hasjrel) | set(dis.hasjabs)
+    state = {0: dict(entry)}
+    work = [0]
+
+    def flow(k, s):
+        old = state.get(k)
+        if old is None:
+            state[k] = dict(s)
+            work.append(k)
+            return
+        new = {v: (old[v] if old[v] == s[v] else 2) for v in old}
+        if new != old:
+            state[k] = new
+            work.append(k)
+    while work:
+        k = work.pop()
+        ins, s = instrs[k], state[k]
+        for h in handlers.get(k, ()):
+            flow(h, s)
+        out = s
+        if ins.opname == "STORE_FAST" and ins.argval in s:
+            out = dict(s)
+            out[ins.argval] = 1
+        elif ins.opname in ("DELETE_FAST", "LOAD_FAST_AND_CLEAR") and ins.argval in s:
+            out = dict(s)
+            out[ins.argval] = 0
+        if ins.opcode in jumps and ins.argval in idx:
+            flow(idx[ins.argval], out)
+        if ins.opname not in no_fall and k + 1 < len(instrs):
+            flow(k + 1, out)
+    # the compiler duplicates code (the statements after a `with` / `try` exist once per way out of it): a source
+    # position is reported only when every reachable copy of the read finds the local certainly unbound
+    groups = {}
+    for k, ins in enumerate(instrs):
+        if k in state and ins.opname in ("LOAD_FAST_CHECK", "LOAD_FAST", "DELETE_FAST") and ins.argval in state[k]:
+            pos = tuple(ins.positions) if ins.positions else (k,)
+            groups.setdefault((ins.argval, pos), []).append(state[k][ins.argval] == 0 and ins.opname != "LOAD_FAST")
+    found = []
+    for (var, pos), flags in groups.items():
+        if all(flags) and (var, pos[0]) not in found:
+            found.append((var, pos[0]))
+    return found
+
+
 _KIND_BIT = {"ImportError": 1, "ModuleNotFoundError": 1, "NameError": 2, "AttributeError": 4}
 _HANDLER_MASK = {"ImportError": 1, "ModuleNotFoundError": 1, "NameError": 2, "UnboundLocalError": 2,
                  "AttributeError": 4, "Exception": 7, "BaseException": 7}
@@ -940,6 +1006,10 @@ def static_probe(repo, pkg, subpackages):
                 res = analyse(c, m, False)
             ent["loads"] += res["loads"]
             ent["problems"].extend(res["problems"])
+            try:
+                ent.setdefault("dead_fast", []).extend(dead_fast_loads(c))
+            except Exception as e:          # never a verdict
+                ent["problems"].append({"kind": "probe-error", "name": "dead_fast_loads: " + repr(e)[:120]})
             for k in ("greads", "gstores", "gdeletes", "maybe_unbound"):
                 ent[k] = sorted(set(ent[k]) | set(res[k]))
         for (q, line), ent in per.items():
@@ -966,6 +1036,9 @@ def static_probe(repo, pkg, subpackages):
             for var in ent.get("maybe_unbound", []):
                 if (n, q, var) not in audited:
                     ent["problems"].append({"kind": "MaybeUnbound", "name": var})
+            # reads of locals that are unbound on every path that reaches them: UnboundLocalError, a NameError
+            for var, dline in ent.get("dead_fast", []):
+                ent["problems"].append({"kind": "DeadLocalLoad", "name": var, "line": dline})
         # a function that deletes a global at call time (`global n; del n`): every function of the module that reads
         # or deletes `n` fails when it is called afterwards -- the deleting function itself when it is called twice
         deleted = {}
@@ -1115,6 +1188,24 @@ def exercise_instance(label, obj, res, budget):
         else:
             budget[0] -= 1
             res[f"{label}.{meth}()"] = attempt(bound)[2]
+    # every other public method that can be called without arguments (drop_cache, cache_exists, ...): last, so that
+    # what they do to the instance cannot change the outcomes above
+    import inspect
+    for meth in sorted(n for n in dir(type(obj)) if not n.startswith("_") and n not in METHODS):
+        if not type(obj).__module__.startswith("lena") or budget[0] <= 0:
+            break
+        bound = getattr(obj, meth, None)
+        if not inspect.ismethod(bound):
+            continue
+        try:
+            pars = list(inspect.signature(bound).parameters.values())
+        except (TypeError, ValueError):
+            continue
+        if any(q.default is q.empty and q.kind in (q.POSITIONAL_ONLY, q.POSITIONAL_OR_KEYWORD, q.KEYWORD_ONLY)
+               for q in pars):
+            continue
+        budget[0] -= 1
+        res[f"{label}.{meth}()"] = attempt(bound)[2]
 
 
 ATOMS = [0, 1, 2, -1, 3, 2.5, "a", "a.b", "x", "b.c.d", "{{a}}", "{{a.b}}", "", None, True, False, [], [0, 1, 2],
@@ -1170,6 +1261,9 @@ def behaviour_probe(repo, pkg, full, subpackages):
     import tempfile
     tmp = tempfile.mkdtemp(prefix="c20probe")
     os.chdir(tmp)
+    # the environment of the file-system elements: one of the palette's names exists as a DIRECTORY (a path that
+    # exists, is readable and can neither be opened as a file nor removed with os.remove)
+    os.mkdir(os.path.join(tmp, "a.b"))
     signal.signal(signal.SIGALRM, _alarm)
     signal.signal(signal.SIGVTALRM, _alarm)
     out = {"pkg": pkg, "full": full}
